@@ -7,7 +7,7 @@ from lib import vlib
 
 BASE = dict(NFlows="2", NNodes="2", EmptyFlows="{}", MaxSteps="4", MaxResumes="2", MaxCalls="4",
             FaultKinds="{}", MaxFaults="0")
-FAULTS = '{"flow_gone", "parent_gone", "node_gone", "pnode_gone", "wait_gone", "group_added"}'
+FAULTS = '{"flow_gone", "parent_gone", "node_gone", "pnode_gone", "wait_gone", "router_gone", "group_added"}'
 # the exhaustive configurations were sized without group_added (a fault that is enabled in every waiting state and changes nothing
 # of the state machine): they keep the core set, group_added has a complete small set of its own
 FAULTS_CORE = '{"flow_gone", "parent_gone", "node_gone", "pnode_gone", "wait_gone"}'
@@ -25,6 +25,9 @@ def gen_plan(ctx, prop):
         plans.append(("3nodes", dict(BASE, NFlows="1", NNodes="3", MaxSteps=str(3 + s % 3), MaxCalls="5", MaxResumes="3"), n // 2))
         # every behaviour of two one-node flows (each node kind in a sub-flow, under every trigger and resume kind)
         plans.append(("all-2x1", dict(BASE, NNodes="1", MaxSteps="3", MaxCalls="3", TrigKinds='{"manual", "msg"}'), None))
+        # every behaviour of one flow of two nodes that are failing actions or waits (a failing action as the LAST of its node, its
+        # exit leading to a wait: the run must not go there)
+        plans.append(("failact-1x2", dict(BASE, NFlows="1", NNodes="2", MaxSteps="4", MaxCalls="3", TrigKinds='{"manual", "msg"}', NodeKinds='{"failact", "wait", "act"}'), None))
         # longer sprints through sub-flows: a parent that enters a second child after the first one completed, a terminal
         # enter from down there (the run list then holds finished runs BETWEEN the active ones) - needs six steps
         plans.append(("deep-subflows", dict(BASE, MaxSteps="6", MaxResumes="0", MaxCalls="1", TrigKinds='{"manual"}', ResumeKinds="{}",
@@ -87,7 +90,7 @@ def mc_constants(ctx, prop):
                 dict(MaxSteps="1", MaxResumes="0", MaxCalls="3"), dict(MaxSteps="2", MaxResumes="1", MaxCalls="3")]
     return [dict(NFlows="2", MaxSteps="2", MaxCalls="3", FaultKinds=FAULTS_CORE, **manual),      # C10 incl. parent_gone: 10.4 M, 90 s
             dict(MaxCalls="4", MaxFaults="2", FaultKinds=FAULTS_CORE),                          # two faults in a row: 0.9 M
-            dict(MaxCalls="3", FaultKinds='{"group_added", "wait_gone"}')]                       # the no-op fault next to a real one
+            dict(MaxCalls="3", FaultKinds='{"group_added", "wait_gone", "router_gone"}')]                       # the no-op fault next to a real one
 
 
 def key_for(name, line):
